@@ -648,6 +648,41 @@ func EvictWindow(seed uint64, iters, stride, gap int) *Case {
 	}
 }
 
+// Unaligned is a C12 sub-profile for the two variants without a data cache
+// (MVP-1, MVP-2): straight-line loads and stores of every width at addresses
+// of every alignment (the ISA model has no alignment restriction; the other
+// generators only produce naturally aligned accesses), so that the latency
+// sum is also checked for accesses that straddle a word or line boundary.
+func Unaligned(seed uint64) *Case {
+	for try := uint64(0); ; try++ {
+		r := rng.New(rng.Derive(seed, 0x0a11, try))
+		p := &Profile{Name: "unaligned", PoolMin: 3, PoolMax: 6, AddrRegsMax: 1, SubWord: true, MemSizes: []int{1024, 4096}}
+		b := NewBuilder(r, p)
+		b.Prog.Misaligned = true
+		base := b.Pool[0]
+		b.Init.Regs[base] = int32(r.Range(0, 255))
+		for k := r.Range(2, 10); k > 0; k-- {
+			off := int32(r.Range(0, 600))
+			switch r.Intn(4) {
+			case 0:
+				b.Emit(isa.Inst{Op: b.storeOp(), Rs2: b.Pool[1+r.Intn(len(b.Pool)-1)], Rs1: base, Imm: off})
+			case 1:
+				b.Emit(isa.Inst{Op: isa.ADDI, Rd: b.Pool[1+r.Intn(len(b.Pool)-1)], Rs1: scratchRegs[0], Imm: int32(r.Intn(7))})
+			default:
+				b.Emit(isa.Inst{Op: b.loadOp(), Rd: scratchRegs[r.Intn(2)], Rs1: base, Imm: off})
+			}
+		}
+		if r.Bool() {
+			b.Emit(isa.Inst{Op: isa.RET})
+		}
+		b.Prog.Labels["END"] = len(b.Prog.Insts)
+		b.Tag("unaligned")
+		if c := Finish(b, 2000, false); c != nil {
+			return c
+		}
+	}
+}
+
 // ReuseTrap is a C08 sub-profile: one static load executes for real with an
 // old base register and, later, on the wrong path of a late-resolving taken
 // branch right behind a producer of its base register (so it is forwarded and
